@@ -35,7 +35,7 @@ TRUSTED_EXTRA = [
 def run(ctx):
     if ctx.replay:
         return replay(ctx, "C02")
-    return memcache.explore(ctx, "C02", 2400 if ctx.thorough else 420, "main")
+    return memcache.explore(ctx, "C02", 12000 if ctx.thorough else 1000, "main")
 
 
 def replay(ctx, want):
